@@ -1243,6 +1243,25 @@ func (e *Engine) evalCall(y *ECall, env *evalEnv) Val {
 			f, ok1 := y.Args[0].(*EIdent)
 			p, ok2 := y.Args[1].(*EIdent)
 			if ok1 && ok2 {
+				// a renamed parameter of the callee: its own contract header names parameters by position
+				pname := p.Name
+				for ck, cc := range e.prog.Contracts {
+					if lastName(ck) != f.Name {
+						continue
+					}
+					if fn := e.prog.Funcs[ck]; fn != nil {
+						off := 0
+						if fn.Signature.Recv() != nil && cc.RecvName != "" {
+							off = 0 // ParamNames includes the receiver when the header names it, as fn.Params does
+						}
+						for i, pn := range cc.ParamNames {
+							if pn == p.Name && i+off < len(fn.Params) && fn.Params[i+off].Name() != "" {
+								pname = fn.Params[i+off].Name()
+							}
+						}
+					}
+				}
+				p = &EIdent{Name: pname}
 				hn := "callarg_" + mangle(f.Name) + "_" + mangle(p.Name)
 				if _, ok := e.callArgTypes[hn]; !ok {
 					// not executed yet (e.g. a loop invariant evaluated at the loop head): take the parameter type
@@ -1361,6 +1380,9 @@ func (fr *Frame) invEnv(li *loopInfo, st *State, phiVals map[*ssa.Phi]Val) *eval
 	// range loops: key variable denotes the next index to process (phi + 1)
 	rangeKey := fr.rangeKeyName(li)
 	lookup := func(name string) (Val, bool) {
+		if nn, ok := fr.renames[name]; ok {
+			name = nn // a local renamed since the baseline (computeRenames)
+		}
 		// header phis by comment (first in instruction order)
 		for _, hin := range h.Instrs {
 			phi, isPhi := hin.(*ssa.Phi)
@@ -1375,8 +1397,16 @@ func (fr *Frame) invEnv(li *loopInfo, st *State, phiVals map[*ssa.Phi]Val) *eval
 			// $iN: the index of (enclosing or own) range loop N: processed-count at its header, current index in its body
 			var n int
 			if _, err := fmt.Sscan(name[2:], &n); err == nil {
+				srcOrd := n
+				if fr.contract != nil {
+					for so, co := range fr.loopAssignment() {
+						if co == n {
+							srcOrd = so
+						}
+					}
+				}
 				for _, l2 := range fr.loopList {
-					if l2.ordinal != n {
+					if l2.ordinal != srcOrd {
 						continue
 					}
 					for _, in := range l2.header.Instrs {
@@ -1447,7 +1477,63 @@ func (fr *Frame) lookupVar(name string, env map[string]ssa.Value, st *State) (Va
 			return fr.params[i], true
 		}
 	}
+	if nn, ok := fr.renames[name]; ok && nn != name {
+		return fr.lookupVar(nn, env, st)
+	}
 	return Val{}, false
+}
+
+// contractLoop: when the header text of source loop li does not match the contract's loop of the same ordinal but
+// matches exactly one other contract loop whose own ordinal does not match either, that one is meant (a loop was
+// added or removed earlier in the function).
+func (fr *Frame) contractLoop(li *loopInfo) (int, bool) {
+	norm := func(s string) string { return strings.Join(strings.Fields(s), " ") }
+	if li.finger == "" {
+		return 0, false
+	}
+	if fp, ok := fr.contract.LoopFinger[li.ordinal]; ok && norm(fp) == li.finger {
+		return li.ordinal, true
+	}
+	byOrd := map[int]string{}
+	for _, l2 := range fr.loopList {
+		byOrd[l2.ordinal] = l2.finger
+	}
+	found, n := 0, 0
+	for co, fp := range fr.contract.LoopFinger {
+		if norm(fp) != li.finger {
+			continue
+		}
+		if byOrd[co] == norm(fp) {
+			continue // that contract loop has its own source loop
+		}
+		found = co
+		n++
+	}
+	// and no other source loop has the same header text
+	same := 0
+	for _, l2 := range fr.loopList {
+		if l2.finger == li.finger {
+			same++
+		}
+	}
+	if n == 1 && same == 1 {
+		return found, true
+	}
+	return 0, false
+}
+
+var reIdent = regexp.MustCompile(`[A-Za-z_][A-Za-z_0-9]*`)
+
+// fingerShape: a loop header with every identifier except keywords replaced by "_".
+func fingerShape(fp string) string {
+	fp = strings.Join(strings.Fields(fp), " ")
+	return reIdent.ReplaceAllStringFunc(fp, func(w string) string {
+		switch w {
+		case "for", "range", "len", "int", "uint64", "int64":
+			return w
+		}
+		return "_"
+	})
 }
 
 type invClause struct {
@@ -1476,15 +1562,120 @@ func (fr *Frame) loopInvariants(li *loopInfo) []invClause {
 		return out
 	}
 	if fr.contract != nil {
-		if fp, ok := fr.contract.LoopFinger[li.ordinal]; ok && li.finger != "" && strings.Join(strings.Fields(fp), " ") != li.finger {
-			fr.e.contractErrs = append(fr.e.contractErrs, fmt.Sprintf("contract-stale: loop %d fingerprint %q does not match source %q", li.ordinal, fp, li.finger))
-			return out
+		m := fr.loopAssignment()
+		co, ok := m[li.ordinal]
+		if !ok {
+			return out // a loop the contract does not talk about (added since it was written): automatic invariants only
 		}
-		for _, c := range fr.contract.LoopInv[li.ordinal] {
+		if co != li.ordinal {
+			li.cord, li.cordSet = co, true
+			fr.e.note("approx", fmt.Sprintf("loop %d of the source is loop %d of the contract (matched by header text)", li.ordinal, co))
+		}
+		for _, c := range fr.contract.LoopInv[co] {
 			out = append(out, invClause{label: c.label, expr: c.expr})
 		}
 	}
 	return out
+}
+
+// loopAssignment maps the loops of the source (by ordinal) to the loops the contract talks about. Loops are
+// matched by their header text first (so that loops added or removed elsewhere in the function do not shift the
+// contract), then -- for the loops left over on both sides, in order -- by the shape of the header with identifiers
+// blanked (a renamed loop variable). A contract loop that finds no source loop makes the contract stale.
+func (fr *Frame) loopAssignment() map[int]int {
+	if fr.loopAssign != nil {
+		return fr.loopAssign
+	}
+	norm := func(s string) string { return strings.Join(strings.Fields(s), " ") }
+	m := map[int]int{}
+	fr.loopAssign = m
+	c := fr.contract
+	var cords []int
+	seen := map[int]bool{}
+	for o := range c.LoopFinger {
+		cords = append(cords, o)
+		seen[o] = true
+	}
+	for o := range c.LoopInv {
+		if !seen[o] {
+			cords = append(cords, o)
+		}
+	}
+	sort.Ints(cords)
+	usedSrc := map[int]bool{}
+	usedC := map[int]bool{}
+	src := map[int]*loopInfo{}
+	var sords []int
+	for _, l := range fr.loopList {
+		src[l.ordinal] = l
+		sords = append(sords, l.ordinal)
+	}
+	sort.Ints(sords)
+	// contract loops without a fingerprint: by ordinal
+	for _, co := range cords {
+		if _, has := c.LoopFinger[co]; !has {
+			if _, ok := src[co]; ok {
+				m[co] = co
+				usedSrc[co], usedC[co] = true, true
+			}
+		}
+	}
+	// 1. exact header text, same ordinal first
+	for _, co := range cords {
+		if usedC[co] {
+			continue
+		}
+		if l, ok := src[co]; ok && !usedSrc[co] && (l.finger == "" || l.finger == norm(c.LoopFinger[co])) {
+			m[co] = co
+			usedSrc[co], usedC[co] = true, true
+		}
+	}
+	for _, co := range cords {
+		if usedC[co] {
+			continue
+		}
+		cand, n := -1, 0
+		for _, so := range sords {
+			if !usedSrc[so] && src[so].finger == norm(c.LoopFinger[co]) {
+				cand = so
+				n++
+			}
+		}
+		if n == 1 {
+			m[cand] = co
+			usedSrc[cand], usedC[co] = true, true
+		}
+	}
+	// 2. what is left, in order, by shape
+	var restC, restS []int
+	for _, co := range cords {
+		if !usedC[co] {
+			restC = append(restC, co)
+		}
+	}
+	for _, so := range sords {
+		if !usedSrc[so] {
+			restS = append(restS, so)
+		}
+	}
+	si := 0
+	for _, co := range restC {
+		found := false
+		for si < len(restS) {
+			so := restS[si]
+			si++
+			if fingerShape(c.LoopFinger[co]) == fingerShape(src[so].finger) {
+				m[so] = co
+				found = true
+				fr.e.note("approx", fmt.Sprintf("loop %d header differs from the contract's fingerprint in identifiers only (renamed variable): matched by position", so))
+				break
+			}
+		}
+		if !found {
+			fr.e.contractErrs = append(fr.e.contractErrs, fmt.Sprintf("contract-stale: loop %d %q of the contract has no matching loop in the source", co, c.LoopFinger[co]))
+		}
+	}
+	return m
 }
 
 type autoRange struct {
